@@ -231,7 +231,7 @@ func (s *stringObject) setForeignIdx(idx valueInt, val, receiver Value, throw bo
 
 func (s *stringObject) defineOwnPropertyStr(name unistring.String, descr PropertyDescriptor, throw bool) bool {
 	if i := strToGoIdx(name); i >= 0 && i < s.length {
-		_, ok := s._defineOwnProperty(name, &valueProperty{enumerable: true}, descr, throw)
+		_, ok := s._defineOwnProperty(name, &valueProperty{value: s._getIdx(i), enumerable: true}, descr, throw)
 		return ok
 	}
 
@@ -241,8 +241,8 @@ func (s *stringObject) defineOwnPropertyStr(name unistring.String, descr Propert
 func (s *stringObject) defineOwnPropertyIdx(idx valueInt, descr PropertyDescriptor, throw bool) bool {
 	i := int64(idx)
 	if i >= 0 && i < int64(s.length) {
-		s.val.runtime.typeErrorResult(throw, "Cannot redefine property: %d", i)
-		return false
+		_, ok := s._defineOwnProperty(idx.string(), &valueProperty{value: s._getIdx(int(i)), enumerable: true}, descr, throw)
+		return ok
 	}
 
 	return s.baseObject.defineOwnPropertyStr(idx.string(), descr, throw)
